@@ -179,6 +179,13 @@ func c09BuildSplit(t *rapid.T) (c09SplitProg, bool) {
 	}
 	if diamond {
 		pubs = append(pubs, "Ld")
+		// both paths USE the shared file (its functions must be defined once although two importers keep them alive), and
+		// the shared file has top-level code with a visible effect (it must run once, when the first importer is loaded)
+		lb.Stmts = append(lb.Stmts, ts.FuncDef{Name: "Lvia", Rets: []ts.Type{ts.TInt}, Body: []ts.Stmt{ts.Return{Vals: []ts.Expr{ts.Call{Alias: "lc", Name: "Lbump", Rets: []ts.Type{ts.TInt}}}}}})
+		pubs = append(pubs, "Lvia")
+		mainF.Stmts = append(mainF.Stmts, ts.Print{Args: []ts.Expr{ts.StrLit{V: "via"}, ts.Call{Alias: "lb", Name: "Lvia", Rets: []ts.Type{ts.TInt}}}})
+		lc.Stmts = append([]ts.Stmt{ts.Print{Args: []ts.Expr{ts.StrLit{V: "lc-start"}}}}, lc.Stmts...)
+		ref.Stdout = "lc-start\n" + ref.Stdout + "via 10\n"
 	}
 	return c09SplitProg{prog: prog, ref: ref, two: two, diamond: diamond, nMoved: len(moved), movedPublic: pubs}, true
 }
